@@ -71,6 +71,11 @@ def run(rng, tier, model_ok):
     nc = 200 if tier == "quick" else 4000
     for _ in range(nc):
         texts.append(V.unit_expr(rng, offset_ok=True))
+    # boundary: every prefix on a handful of units (the gram is stored relative to the kilogram, so its prefixes reach -27 and +21),
+    # alone, squared, inverted and in a quotient
+    for _, letter in V.prefixes:
+        for w in ("g", "m", "s", "B", "N", "Hz"):
+            texts += [letter + w, letter + w + "^2", letter + w + "^-1", "m/" + letter + w, letter + w + "*s^-3"]
     crep = vlib.run_impl(["C u " + vlib.hx(t) for t in texts])
     for t, r in zip(texts, crep):
         if "names" not in r:
